@@ -125,6 +125,8 @@ pub enum Op {
     Randomize(u64),
     /// host replaces the interpreter after NEW
     Replace,
+    /// `stop_evaluating()`: the host abandons whatever is running
+    Stop,
 }
 
 impl Op {
@@ -136,6 +138,7 @@ impl Op {
             Op::Break => json!("break"),
             Op::Randomize(s) => json!({"randomize": s}),
             Op::Replace => json!("replace-after-NEW"),
+            Op::Stop => json!("stop_evaluating"),
         }
     }
 }
@@ -223,6 +226,7 @@ impl Session {
             (Op::Break, InterpreterState::Running | InterpreterState::AwaitingInput) => true,
             (Op::Randomize(_), s) => s != InterpreterState::NewInterpreterRequested,
             (Op::Replace, InterpreterState::NewInterpreterRequested) => true,
+            (Op::Stop, s) => s != InterpreterState::NewInterpreterRequested,
             _ => false,
         }
     }
@@ -268,6 +272,9 @@ impl Session {
             Op::Input(text) => it.provide_input(text.clone()),
             Op::Break => it.break_at_current_location(),
             Op::Randomize(seed) => it.randomize(*seed),
+            Op::Stop => {
+                it.stop_evaluating();
+            }
             Op::Replace => {
                 let w = it.enable_warnings;
                 let t = it.enable_tracing;
